@@ -8,6 +8,8 @@ import Mathlib.Algebra.BigOperators.Pi
 import Mathlib.Tactic.FieldSimp
 import Mathlib.Tactic.LinearCombination
 import Mathlib.Tactic.Ring
+import Mathlib.Data.Fintype.Sum
+import Mathlib.Algebra.BigOperators.Group.Finset.Sigma
 /-!
 Special soundness of one folding round of the Bulletproofs inner-product argument (knowledge
 extraction step), stated over index-set vectors `ι → F` and Finset sums (the relation `Pip` of
@@ -254,4 +256,114 @@ theorem lin_folded (gL gR hL hR : ι → G) (Q : G) (u c : F) (a' b' : ι → F)
   abel
 
 end main
+
+/-! ## any number of rounds: a tree of accepting transcripts -/
+section tree
+variable {F G : Type} [Field F] [DecidableEq F] [AddCommGroup G] [Module F G]
+
+/-- index set of vectors of length `2^k`: `k` binary choices (first choice = first folding round) -/
+@[reducible] def Idx : ℕ → Type
+  | 0 => Unit
+  | k + 1 => Idx k ⊕ Idx k
+
+instance instFintypeIdx : (k : ℕ) → Fintype (Idx k)
+  | 0 => inferInstanceAs (Fintype Unit)
+  | k + 1 => @instFintypeSum (Idx k) (Idx k) (instFintypeIdx k) (instFintypeIdx k)
+
+/-- the inner-product relation `P = ⟨a,g⟩ + ⟨b,h⟩ + ⟨a,b⟩•Q` for vectors indexed by `ι` -/
+def Opens {ι : Type} [Fintype ι] (g h : ι → G) (Q P : G) : Prop :=
+  ∃ a b : ι → F, P = (∑ j, a j • g j) + (∑ j, b j • h j) + (∑ j, a j * b j) • Q
+
+/-- independence of `g ‖ h ‖ Q` -/
+def Indep {ι : Type} [Fintype ι] (g h : ι → G) (Q : G) : Prop :=
+  Function.Injective fun v : (ι → F) × (ι → F) × F => (∑ j, v.1 j • g j) + (∑ j, v.2.1 j • h j) + v.2.2 • Q
+
+/-- folded generators of one round with challenge `u` -/
+def foldG {k : ℕ} (u : F) (g : Idx (k + 1) → G) : Idx k → G := fun j => u⁻¹ • g (Sum.inl j) + u • g (Sum.inr j)
+def foldH {k : ℕ} (u : F) (h : Idx (k + 1) → G) : Idx k → G := fun j => u • h (Sum.inl j) + u⁻¹ • h (Sum.inr j)
+
+/-- a tree of accepting transcripts: at every level four challenges with pairwise distinct non-zero squares,
+    the same `L, R`, and an accepting subtree for each folded statement; at the leaves scalars `a, b` -/
+inductive AccTree (Q : G) : (k : ℕ) → (Idx k → G) → (Idx k → G) → G → Prop
+  | leaf (g h : Idx 0 → G) (P : G) (a b : F) (hP : P = a • g () + b • h () + (a * b) • Q) : AccTree Q 0 g h P
+  | node (k : ℕ) (g h : Idx (k + 1) → G) (P L R : G) (u : Fin 4 → F) (hu0 : ∀ i, u i ≠ 0)
+      (hsq : Function.Injective fun i => u i * u i)
+      (sub : ∀ i, AccTree Q k (foldG (u i) g) (foldH (u i) h) (P + (u i * u i) • L + ((u i)⁻¹ * (u i)⁻¹) • R)) :
+      AccTree Q (k + 1) g h P
+
+theorem sum_idx_succ {M : Type} [AddCommMonoid M] (k : ℕ) (f : Idx (k + 1) → M) :
+    (∑ x, f x) = (∑ j : Idx k, f (Sum.inl j)) + ∑ j : Idx k, f (Sum.inr j) :=
+  Fintype.sum_sum_type f
+
+/-- independence at level `k+1`, in the split form used by `ipp_round_extract` -/
+theorem indep_split {k : ℕ} (g h : Idx (k + 1) → G) (Q : G) (hi : Indep (F := F) g h Q) :
+    Function.Injective (lin (F := F) (fun j => g (Sum.inl j)) (fun j => g (Sum.inr j))
+      (fun j => h (Sum.inl j)) (fun j => h (Sum.inr j)) Q) := by
+  intro v w hvw
+  have key : ∀ v : V F (Idx k), lin (F := F) (fun j => g (Sum.inl j)) (fun j => g (Sum.inr j))
+      (fun j => h (Sum.inl j)) (fun j => h (Sum.inr j)) Q v
+      = (∑ x, (Sum.elim v.1 v.2.1 x) • g x) + (∑ x, (Sum.elim v.2.2.1 v.2.2.2.1 x) • h x) + v.2.2.2.2 • Q := by
+    intro v
+    rw [sum_idx_succ, sum_idx_succ]
+    simp only [lin, Sum.elim_inl, Sum.elim_inr]
+    abel
+  rw [key v, key w] at hvw
+  have := @hi (Sum.elim v.1 v.2.1, Sum.elim v.2.2.1 v.2.2.2.1, v.2.2.2.2)
+    (Sum.elim w.1 w.2.1, Sum.elim w.2.2.1 w.2.2.2.1, w.2.2.2.2) hvw
+  simp only [Prod.mk.injEq] at this
+  obtain ⟨h1, h2, h3⟩ := this
+  have e1 : v.1 = w.1 := funext fun j => by simpa using congrFun h1 (Sum.inl j)
+  have e2 : v.2.1 = w.2.1 := funext fun j => by simpa using congrFun h1 (Sum.inr j)
+  have e3 : v.2.2.1 = w.2.2.1 := funext fun j => by simpa using congrFun h2 (Sum.inl j)
+  have e4 : v.2.2.2.1 = w.2.2.2.1 := funext fun j => by simpa using congrFun h2 (Sum.inr j)
+  exact Prod.ext e1 (Prod.ext e2 (Prod.ext e3 (Prod.ext e4 h3)))
+
+/-- folding with a non-zero challenge preserves independence -/
+theorem indep_fold {k : ℕ} (g h : Idx (k + 1) → G) (Q : G) (u : F) (hu : u ≠ 0) (hi : Indep (F := F) g h Q) :
+    Indep (F := F) (foldG u g) (foldH u h) Q := by
+  intro v w hvw
+  have hs := indep_split g h Q hi
+  have key : ∀ v : (Idx k → F) × (Idx k → F) × F,
+      (∑ j, v.1 j • foldG u g j) + (∑ j, v.2.1 j • foldH u h j) + v.2.2 • Q
+      = lin (F := F) (fun j => g (Sum.inl j)) (fun j => g (Sum.inr j)) (fun j => h (Sum.inl j)) (fun j => h (Sum.inr j)) Q
+          (fun j => u⁻¹ * v.1 j, fun j => u * v.1 j, fun j => u * v.2.1 j, fun j => u⁻¹ * v.2.1 j, v.2.2) := by
+    intro v
+    exact lin_folded (fun j => g (Sum.inl j)) (fun j => g (Sum.inr j)) (fun j => h (Sum.inl j)) (fun j => h (Sum.inr j))
+      Q u v.2.2 v.1 v.2.1
+  simp only at hvw
+  rw [key v, key w] at hvw
+  have := hs hvw
+  simp only [Prod.mk.injEq] at this
+  obtain ⟨-, h2, h3, -, h5⟩ := this
+  have e1 : v.1 = w.1 := funext fun j => mul_left_cancel₀ hu (congrFun h2 j)
+  have e2 : v.2.1 = w.2.1 := funext fun j => mul_left_cancel₀ hu (congrFun h3 j)
+  exact Prod.ext e1 (Prod.ext e2 h5)
+
+/-- **the inner-product argument is (4, …, 4)-special sound**: from a tree of accepting transcripts
+    (any number `k` of folding rounds) with independent generators one obtains an opening of `P` -/
+theorem ipp_tree_extract (Q : G) (k : ℕ) (g h : Idx k → G) (P : G)
+    (hi : Indep (F := F) g h Q) (ht : AccTree (F := F) Q k g h P) : Opens (F := F) g h Q P := by
+  induction ht with
+  | leaf g h P a b hP =>
+    refine ⟨fun _ => a, fun _ => b, ?_⟩
+    rw [hP]
+    simp [Idx]
+  | node k g h P L R u hu0 hsq sub ih =>
+    have ih' : ∀ i, Opens (F := F) (foldG (u i) g) (foldH (u i) h) Q
+        (P + (u i * u i) • L + ((u i)⁻¹ * (u i)⁻¹) • R) := fun i => ih i (indep_fold g h Q (u i) (hu0 i) hi)
+    unfold Opens at ih'
+    choose a' b' hab using ih'
+    obtain ⟨a1, a2, b1, b2, hP⟩ := ipp_round_extract (fun j => g (Sum.inl j)) (fun j => g (Sum.inr j))
+      (fun j => h (Sum.inl j)) (fun j => h (Sum.inr j)) Q (indep_split g h Q hi) P L R u hu0 hsq a' b'
+      (fun i => by
+        rw [hab i]
+        exact lin_folded (fun j => g (Sum.inl j)) (fun j => g (Sum.inr j)) (fun j => h (Sum.inl j))
+          (fun j => h (Sum.inr j)) Q (u i) _ (a' i) (b' i))
+    refine ⟨Sum.elim a1 a2, Sum.elim b1 b2, ?_⟩
+    rw [hP, sum_idx_succ, sum_idx_succ, sum_idx_succ]
+    simp only [lin, Sum.elim_inl, Sum.elim_inr]
+    abel
+
+end tree
+
 end Zk.IppExtract
